@@ -882,21 +882,19 @@ import sys, json, warnings
 import numpy as np
 warnings.simplefilter('ignore')
 from abacusnbody.analysis import tsc
-from abacusnbody.analysis.cic import cic_serial
-g, axis, kind = int(sys.argv[1]), int(sys.argv[2]), sys.argv[3]
-shape = [2, 2, 2]; shape[axis] = g
-box = float(g)
-pts = [0.0, 0.25, g / 2 + 0.25, g - 1.0, g - 0.25, 32767.5 if g > 32768 else 1.5, float(min(g - 2, 40000))]
-pos = np.zeros((len(pts), 3)); pos[:, axis] = pts
-others = [a for a in range(3) if a != axis]
-d = np.zeros(shape)
-if kind == 'tsc':
+for combo in sys.argv[1:]:
+    g, axis = (int(v) for v in combo.split(':'))
+    shape = [2, 2, 2]; shape[axis] = g
+    box = float(g)
+    pts = [0.0, 0.25, g / 2 + 0.25, g - 1.0, g - 0.25, 32767.5 if g > 32768 else 1.5, float(min(g - 2, 40000))]
+    pos = np.zeros((len(pts), 3)); pos[:, axis] = pts
+    others = [a for a in range(3) if a != axis]
+    d = np.zeros(shape)
+    print(json.dumps({'start': combo}), flush=True)
     tsc._tsc_scatter(pos, d, box)
-else:
-    cic_serial(pos, d, box)
-prof = d.sum(axis=tuple(others))
-nz = np.nonzero(prof)[0]
-print(json.dumps({'sum': float(d.sum()), 'rows': [int(v) for v in nz], 'vals': [float(prof[v]) for v in nz], 'pts': pts}))
+    prof = d.sum(axis=tuple(others))
+    nz = np.nonzero(prof)[0]
+    print(json.dumps({'combo': combo, 'sum': float(d.sum()), 'rows': [int(v) for v in nz], 'vals': [float(prof[v]) for v in nz], 'pts': pts}), flush=True)
 """
 
 
@@ -921,26 +919,61 @@ def long_axis_expected(g, pts, kind):
 
 def check_long_axis(ctx):
     """`_tsc_scatter` keeps the grid shape and the cell indices in a fixed-width integer: axes of 32768 cells and more are
-    legal grid shapes (anisotropic grids) and must deposit the same kernel.  Run in a child process with a time limit,
-    because a wrapped-around axis length makes `_rightwrap` spin forever."""
+    legal grid shapes (anisotropic grids) and must deposit the same kernel.  Run in ONE child process (one compilation)
+    with a generous time limit, because a wrapped-around axis length makes `_rightwrap` spin forever; the child
+    announces each grid before it starts it, so a hang is attributed to its grid."""
     import subprocess
     import vcommon
-    for g in ctx.pick((32767, 32768, 40000), (32767, 32768, 32769, 40000, 65535, 65536, 65537, 100000)):
-        for axis in ((0, 2) if ctx.quick else (0, 1, 2)):
-            case = dict(stream='long-axis', kind='tsc', g=g, axis=axis)
+    combos = ['%d:%d' % (g, axis)
+              for g in ctx.pick((32767, 32768, 40000), (32767, 32768, 32769, 40000, 65535, 65536, 65537, 100000))
+              for axis in ((0, 2) if ctx.quick else (0, 1, 2))]
+    import selectors
+    import time
+    timed_out = False
+    p = subprocess.Popen([vcommon.PY, '-B', '-c', LONG_AXIS_WORKER] + combos, env=vcommon.impl_env({'NUMBA_BOUNDSCHECK': '1'}),
+                         stdout=subprocess.PIPE, stderr=subprocess.PIPE, text=True)
+    sel = selectors.DefaultSelector()
+    sel.register(p.stdout, selectors.EVENT_READ)
+    lines = []
+    budget = 600.0          # the first grid includes the compilation; every later grid gets 240 s
+    deadline = time.time() + budget
+    while True:
+        left = deadline - time.time()
+        if left <= 0:
+            timed_out = True
+            p.kill()
+            break
+        if sel.select(timeout=min(left, 5.0)):
+            line = p.stdout.readline()
+            if not line:
+                break
+            lines.append(line)
+            if '"combo"' in line:
+                deadline = time.time() + 240.0
+        elif p.poll() is not None:
+            break
+    try:
+        rest_out, stderr = p.communicate(timeout=30)
+    except Exception:   # noqa: BLE001
+        rest_out, stderr = '', ''
+    stdout, rc = ''.join(lines) + (rest_out or ''), p.returncode
+    started, results = [], {}
+    for line in stdout.splitlines():
+        try:
+            o = json.loads(line)
+        except ValueError:
+            continue
+        if 'start' in o:
+            started.append(o['start'])
+        elif 'combo' in o:
+            results[o['combo']] = o
+    for combo in combos:
+        g, axis = (int(v) for v in combo.split(':'))
+        case = dict(stream='long-axis', kind='tsc', g=g, axis=axis)
+        if combo in results:
             ctx.case(case)
             ctx.count('long-axis')
-            try:
-                r = subprocess.run([vcommon.PY, '-B', '-c', LONG_AXIS_WORKER, str(g), str(axis), 'tsc'], env=vcommon.impl_env({'NUMBA_BOUNDSCHECK': '1'}),
-                                   capture_output=True, text=True, timeout=120)
-            except subprocess.TimeoutExpired:
-                ctx.fail('_tsc_scatter does not return within 120 s on a grid with a long axis', case, 'no result (time limit)',
-                         'the TSC deposit', key=LONG_AXIS_KEY)
-                return          # one hang is the failing input; do not wait for the others
-            if r.returncode != 0:
-                ctx.fail('_tsc_scatter raised on a grid with a long axis', case, r.stderr[-300:], 'the TSC deposit', key=LONG_AXIS_KEY)
-                continue
-            out = json.loads(r.stdout.strip().splitlines()[-1])
+            out = results[combo]
             exp = long_axis_expected(g, out['pts'], 'tsc')
             got = dict(zip(out['rows'], out['vals']))
             if out['sum'] != float(len(out['pts'])) or got != exp:
@@ -948,6 +981,16 @@ def check_long_axis(ctx):
                 ctx.fail('_tsc_scatter deposit along a long axis is not the documented kernel', dict(case, rows=bad[:6]),
                          {'sum': out['sum'], 'got': {k: got.get(k) for k in bad[:6]}}, {'sum': len(out['pts']), 'expected': {k: exp.get(k) for k in bad[:6]}},
                          key=LONG_AXIS_KEY)
+        elif combo in started:
+            ctx.case(case)
+            if timed_out:
+                ctx.fail('_tsc_scatter does not return (10 min incl. compilation for the first grid, 4 min for each later one) on a grid with a long axis', case,
+                         'no result (time limit)', 'the TSC deposit', key=LONG_AXIS_KEY)
+            else:
+                ctx.fail('_tsc_scatter raised on a grid with a long axis', case, (stderr or '')[-300:], 'the TSC deposit', key=LONG_AXIS_KEY)
+            return
+    if not results and not started:
+        raise vcommon.Infra('long-axis worker produced nothing (rc=%s): %s' % (rc, (stderr or '')[-500:]))
 
 
 def run_cases(ctx, impl, cases):
